@@ -128,7 +128,9 @@ class FCheck(SCheck):
         f = oracle.termination_findings(res)
         if verdict is not None:
             exempt = self.exemptions(res)
-            f += oracle.check_tree(res, verdict, inv, case.get("umask", 0o022), t0, fault_exempt=exempt)
+            from .scheck import sparse_applicable
+            f += oracle.check_tree(res, verdict, inv, case.get("umask", 0o022), t0, fault_exempt=exempt,
+                                   sparse_ok=sparse_applicable(case, inv, plan))
         return f
 
     def exemptions(self, res):
